@@ -40,6 +40,8 @@ type Component struct {
 	svcGroupResolver *svcgroup.Resolver
 	cache            cache.Cache
 	opdb             opdb.Store
+	ckpt             *opdb.OrderedWriter
+	ckptOnce         sync.Once
 	exclusivity      session.ExclusivityRegistry
 	dhcp4Providers   map[string]dhcp4.DHCPProvider
 	dhcp6Providers   map[string]dhcp6.DHCPProvider
